@@ -60,7 +60,7 @@ def wrap_datum(node, inner, fac):
 
 
 def run_case(ctx, rng, idx):
-    inner = gen_node(rng, ctx.tier, max_depth=2)
+    inner = gen_node(rng, ctx.tier, max_depth=2, with_models=True)
     node = wrap(rng, inner)
     prog = Program(node)
     for (kind, dt, sc), e in prog.creation_errors.items():
